@@ -42,6 +42,44 @@ def ap_name(rec):
     return (rec.get("stem") or APNAME[:-len(".ap.bin")]) + ".ap" + (("." + UUID) if rec.get("uuid") else "") + ".bin"
 
 
+EXTREME_WORDS = [0x8000, 0x8001, 0x7FFF, 0xFFFF, 0x0000]     # int16 -32768, -32767, 32767, -1, 0
+
+
+def sync_injections(rec):
+    """{AP sample index: uint16 word}: the extreme sync words, each placed on the decimation grid of the
+    conversion (indices = offset mod 12) and, as controls, off the grid.  Deterministic in the recording."""
+    import random
+    prng = random.Random((rec["seed"] * 2654435761 + 12345) % (2 ** 32))
+    ns, n, off = rec["ns"], rec_n(rec), rec.get("offset") or 0
+    n = max(0, min(n, ns - off))
+    rows = cdiv(n, RATIO)
+    inj = {}
+    if rows <= 0:
+        return inj
+    grid = list(range(rows))
+    prng.shuffle(grid)
+    pick = grid[:min(rows, 2 * len(EXTREME_WORDS))]
+    if 0 not in pick:
+        pick[0] = 0                       # the very first sample carries 0x8000 in every recording
+    for k, j in enumerate(pick):
+        inj[off + RATIO * j] = EXTREME_WORDS[k % len(EXTREME_WORDS)]
+    for k, j in enumerate(pick):          # controls: the same words off the grid
+        q = off + RATIO * j + 1 + prng.randrange(RATIO - 1)
+        if q < ns and q not in inj:
+            inj[q] = EXTREME_WORDS[(k + 1) % len(EXTREME_WORDS)]
+    return inj
+
+
+def sync_column(rec):
+    """int16 sync column of the AP file: a bijection of the sample index (so that an LF row reveals the AP sample it
+    was taken at) with the extreme words injected on and off the decimation grid."""
+    pos = np.arange(rec["ns"], dtype=np.int64)
+    w = (rec["sync_off"] + rec["sync_mul"] * pos) % 65536
+    for q, v in sync_injections(rec).items():
+        w[q] = v
+    return w.astype(np.uint16).view(np.int16)
+
+
 def file_digest(path):
     import hashlib
     return hashlib.sha1(Path(path).read_bytes()).hexdigest()
@@ -125,8 +163,7 @@ def make_recording(root, rec):
     ap = d / ap_name(rec)
     nap = rec.get("nap") or 384          # AP channels saved to disk (SpikeGLX "save channel subset": the first nap)
     x = make_content(rng, ns, rec["content"])[:, :nap]
-    pos = np.arange(ns, dtype=np.int64)
-    sy = ((rec["sync_off"] + rec["sync_mul"] * pos) % 65536).astype(np.uint16).view(np.int16)
+    sy = sync_column(rec)
     dat = np.concatenate([x, sy[:, None]], axis=1)
     dat.tofile(ap)
     meta = fixture_meta(kind)
@@ -434,6 +471,12 @@ def decode_positions(rec, col):
     # an error of a whole multiple of 65536 samples would show in the value comparison instead)
     exp = (rec.get("offset") or 0) + RATIO * np.arange(r.size, dtype=np.int64)
     r = r + 65536 * np.round((exp - r) / 65536.0).astype(np.int64)
+    # rows expected at an index where an extreme word was injected: the word must be exactly that word
+    inj = sync_injections(rec)
+    for m in range(r.size):
+        e = int(exp[m])
+        if e in inj and int(w[m]) == inj[e]:
+            r[m] = e
     return [int(v) for v in r]
 
 
@@ -637,8 +680,9 @@ def gen_recordings(ctx):
     rec("NP21", rng.randrange(1300, 1900), "tones", "fixture", "30000", [612], prb_type=24)
     rec("NP24", rng.randrange(1300, 1900), "steps", "scattered", "29999.757983", [588, 1200], nshank=[2, 0, 3], reuse=True)
     # (c) inadmissible window sizes (assert in init_params)
-    for w in (590, 1201, 1199, 2405):
-        rec("NP21", rng.randrange(700, 1500), "walk", "fixture", "30000", [w])
+    #     not a multiple of 12, or not longer than the 576-sample overlap
+    for w in (590, 1201, 1199, 2405, 576, 564, 288, 12):
+        rec("NP21" if w % 24 else "NP24", rng.randrange(700, 1500), "walk", "fixture", "30000", [w], nap=64)
     return recs
 
 
